@@ -271,12 +271,72 @@ def catalogue_part(ctx, rnd, quick):
     ctx.sample({"planted": cases[len(cases) // 2][1], "token": cases[len(cases) // 2][2], "offset": cases[len(cases) // 2][3]})
 
 
+def _valid_chunk(args):
+    progs, perms = args
+    sys.path.insert(0, REPO_SRC)
+    from chameleon import PageTemplate
+    out = []
+    n = 0
+    for p in progs:
+        for perm in perms:
+            if perm // 100 == 2 and p.get("libs"):
+                continue     # plan 2 declares the prefix on a block that encloses the entry template only
+            c = C.concretize(p, perm)
+            for eol in ("\n", "\r\n"):
+                for src in c.srcs:
+                    n += 1
+                    try:
+                        t = PageTemplate(src.replace("\n", eol), **({"enable_data_attributes": True} if perm // 100 == 3 else {}))
+                        t.cook_check()
+                    except Exception as e:
+                        out.append((p.get("fam"), src.replace("\n", eol), "%s: %s" % (type(e).__name__, str(e).splitlines()[:1])))
+    return n, out
+
+
+def valid_part(ctx, rnd, quick):
+    """(c) a template without a language error is never rejected: the valid programs of the machine's families, in every
+    spelling plan (prefixes, data- attributes), attribute order, single- and multi-line statement values, LF and CRLF"""
+    progs = F.c01_f1("quick") + F.c01_f2("quick", rnd) + F.c07_family("quick", rnd) + F.c08_family("quick", rnd) + \
+        F.c09_family("quick", rnd) + F.c10_family("quick", rnd) + F.c01_extras("quick", rnd) + F.c04_family("quick", rnd)
+    progs = [p for p in progs if not any(ev.get("x") == "bad" for ev in _exprs(p))]
+    if quick:
+        progs = rnd.sample(progs, min(len(progs), 400))
+    perms = (0, 1, 101, 201, 301, 3) if quick else (0, 1, 2, 3, 101, 103, 201, 203, 301, 303)
+    chunks = [(progs[i::16], perms) for i in range(16)]
+    with multiprocessing.get_context("fork").Pool(16) as pool:
+        res = pool.map(_valid_chunk, chunks)
+    for n, out in res:
+        ctx.replays += n
+        for fam, src, why in out[:2]:
+            if len(ctx.violations) < 8:
+                ctx.violation("a valid template (%s) is rejected: %s\n  template: %r" % (fam, why, src), dict(kind="valid-rejected", source=src, why=why))
+    ctx.notes["valid_templates_compiled"] = sum(n for n, _ in res)
+
+
+def _exprs(p):
+    """all expression nodes of a program"""
+    out = []
+
+    def walk(e):
+        if isinstance(e, dict):
+            if "x" in e:
+                out.append(e)
+            for v in e.values():
+                walk(v)
+        elif isinstance(e, list):
+            for v in e:
+                walk(v)
+    walk(p["items"])
+    return out
+
+
 def run(ctx):
     rnd = random.Random(ctx.seed)
     quick = ctx.tier == "quick"
     tokenpos_part(ctx, quick)
     splitter_part(ctx, quick)
     catalogue_part(ctx, rnd, quick)
+    valid_part(ctx, rnd, quick)
     ctx.exhaustive = True
     ctx.rule = ("token algebra: every source string over {a, b, space, ';'} up to length 4/5 x every sequence of <=2/3 "
                 "operations; splitter: every clause over {x, space, ';', &amp;, 1, e-acute} up to length 5/6; catalogue: "
